@@ -132,6 +132,23 @@ HISTORY = {
                                         "called again)",
     "C11-merge-memo-by-id": "MISSED at first: the harness kept every result alive for the whole exploration -> lifetime "
                             "leg (short-lived results analysed, dropped and replaced, all ordered pairs and triples)",
+    # wave 10
+    "C01-seeding-eq-before-type-guard": "caught outright",
+    "C22-minimize-restores-aliased-snapshot": "caught outright",
+    "C04-bool-predicate-len-before-bool": "MISSED at first: no user class defined both __bool__ and __len__ -> values "
+                                          "whose protocols disagree (bool vs len, == of a str subclass, contains vs "
+                                          "iter); these exposed three defects of the unchanged tree (fixed, e9b0615); "
+                                          "patch ported to the repaired lines",
+    "C08-scope-names-only-stmt-children": "MISSED at first: no definition inside an except handler or a match case -> "
+                                          "hand-written module def_in_handler_and_case, selected by name",
+    "C10-cache-clone-shares-fitness": "not reported by C10 (its chromosomes are never cloned); it breaks the neighbouring "
+                                      "property C12 (a clone's evaluation changes what the original reports), whose check "
+                                      "reports it with 37 fingerprints (checks.txt)",
+    "C25-orig-bases-inherited": "MISSED at first: generated hierarchies had only plain bases -> generic flavour (Generic[T] "
+                                "roots inherited from in parametrised form)",
+    "C27-defining-class-via-method-globals": "MISSED at first: no definition wrapped by a decorator of another module -> "
+                                             "feature foreigndeco (functools.wraps decorator of the helper module, "
+                                             "contextlib.contextmanager)",
 }
 
 
